@@ -2911,7 +2911,20 @@ def r1320(W, engs, rep):
                             while n is not None and n.kind in ('ImplicitCastExpr', 'ParenExpr'):
                                 n = n.parent
                             return n
-                        unexamined = all(up(n) is c or (up(n) is not None and up(n).kind == 'UnaryOperator' and up(n).opcode == '&' and up(up(n)) is c)
+                        def walks(n):
+                            # `for (T *t = x; ...; t = ...) body` with a body that neither calls nor leaves: the list is walked, x itself is not judged there
+                            d = up(n)
+                            if d is None or d.kind != 'VarDecl' or d.parent is None or d.parent.kind != 'DeclStmt':
+                                return False
+                            L = d.parent.parent
+                            if L is None or L.kind != 'ForStmt' or not L.inner or L.inner[0] is not d.parent:
+                                return False
+                            inc, bdy = L.inner[-2] if len(L.inner) >= 2 else None, L.inner[-1]
+                            if any(y.kind in ('CallExpr', 'ReturnStmt', 'BreakStmt', 'GotoStmt', 'IndirectGotoStmt') for y in bdy.walk()):
+                                return False
+                            return inc is not None and inc is not d.parent and any(w.kind == 'BinaryOperator' and w.opcode == '=' and w.inner[0].strip_all().kind == 'DeclRefExpr'
+                                                                                   and w.inner[0].strip_all().ref_id == d.id for w in inc.walk())
+                        unexamined = all(up(n) is c or (up(n) is not None and up(n).kind == 'UnaryOperator' and up(n).opcode == '&' and up(up(n)) is c) or walks(n)
                                          for n in fd.walk() if n.kind == 'DeclRefExpr' and n.ref_id == x.ref_id)
                         if not excl and unexamined:
                             kn = ','.join(sorted(K[1]))
